@@ -681,6 +681,38 @@ func (ev *Evaluator) LoadField(st *State, ptr *T, fields ...string) *T {
 	return cur
 }
 
+// ValueField reads field `name` of v, which is either a pointer to a struct (LoadField) or a struct value (a
+// composite built on this path, or an opaque value such as a received message).
+func (ev *Evaluator) ValueField(st *State, v *T, name string) *T {
+	if v == nil || v.Typ == nil {
+		return nil
+	}
+	if _, isPtr := v.Typ.Underlying().(*types.Pointer); isPtr {
+		return ev.LoadField(st, v, name)
+	}
+	s, ok := v.Typ.Underlying().(*types.Struct)
+	if !ok {
+		return nil
+	}
+	want := name
+	if n, isN := v.Typ.(*types.Named); isN && n.Obj().Pkg() != nil {
+		if a, okA := toActual[n.Obj().Pkg().Name()+"."+typeCanonName(n.Obj())+"."+name]; okA {
+			want = a
+		}
+	}
+	for i := 0; i < s.NumFields(); i++ {
+		if s.Field(i).Name() != want {
+			continue
+		}
+		if v.Op == "struct" && i < len(v.Args) {
+			return v.Args[i]
+		}
+		k, ft := fieldKey(v.Typ, i)
+		return ev.TS.intern(&T{Op: "fld", Aux: k, Args: []*T{v}, Typ: ft})
+	}
+	return nil
+}
+
 // ---- running -----------------------------------------------------------------------------------------
 
 // Run evaluates fn from a fresh state with symbolic parameters.
